@@ -36,6 +36,12 @@ CODES = {
 }
 
 
+R9_WHAT = ("cosmosdb UpdatePlan patches the plan item and then replaces the search entry (updater.go patchPlan); torn between the two on the FIRST "
+           "write of a run (sm.Start: NotStarted -> Running; crash, or the search-partition write refused and the engine log.Fatalf's) the item is "
+           "durably Running while its search entry still says NotStarted; Vault.Recovery (cosmosdb/recovery.go) and execute.recover only search "
+           "entries that say Running, so the plan is never repaired, never resumed and Start rejects it: durably Running yet not considered")
+
+
 BATCH_BYTES = 4_000_000   # text of case terms per Coq round (16 shards): bounds time and memory of every coqc process
 
 
@@ -149,6 +155,16 @@ def run(ctx):
                 why="plan item %s, search entry still Running; Search(Running) lists the plan; after Recovery() the search entry is still %s"
                     % (probe.get("plan_item_status"), probe.get("search_entry_status_after_recovery")), probe=probe,
                 input=dict(probe="cosmosdb fake: UpdatePlan with the search-partition write failing, then Recovery()")))
+    # R9 (known, not repaired): the first UpdatePlan of a run torn between the plan item and the search entry
+    torn = (probe or {}).get("torn_first_write")
+    if isinstance(torn, dict) and torn.get("torn"):
+        if ctx.finding_status("R9") == "fixed":
+            ctx.violation(dict(kind="torn-first-update-leaves-running-plan-unlisted", monitor_false=True, failure_class="R9-returned",
+                               why=R9_WHAT + " -- listed as fixed in known_findings.json but reproduced by the probe", probe=torn,
+                               input=dict(probe="cosmosdb fake: Create NotStarted; UpdatePlan(Running) with the search-partition write refused")))
+        else:
+            ctx.known("R9", R9_WHAT + " [witness of this run: real cosmosdb updater over the package's fake, plan item %s, search entry status %s, UpdatePlan error %s; "
+                      "model: c11_ex_torn_first_write_refuted]" % (torn.get("plan_item_status"), torn.get("search_entry_status"), torn.get("update_plan_returned_error")))
     if recorded is not None:
         cases = [recorded] + cases
     good = [c for c in cases if c.get("coq")]
@@ -330,5 +346,6 @@ def run(ctx):
         "crash during the close: the first incarnation is cut off by a vault wrapper that drops every Update* after the j-th (what the store sees of a process that died there); the order of the Update* calls of every close is compared with the model's write list (plan row first; theorem c11_close_is_crash_safe)",
         "the real *cosmosdb.Vault is asked at run time whether it implements storage.Recovery (violation kind vault-lost-its-recovery-interface); the behavioural part of that probe crafts 'plan item terminal, search entry Running' through the package's fake and calls Recovery(), but with the present verif hooks it stops there: the fake Vault does not wire the unexported recovery{reader, updater} field (Recovery() panics on the fake) and the fake answers a status-only Search with an empty result - see coverage.cosmosdb_recovery_probe.stopped_at",
         "context already done: 15% of the ordinary stores hand coercion.New a context that was cancelled before the call or whose deadline has passed; since fix 2c25a0f (R8) New returns the error of a failed recovery; the check accepts an error with nothing executed and an untouched / prefix-closed store, or a complete recovery (theorem c11_new_error_or_complete_recovery); other store-operation failures (a failing Search / Read / Update*) are modelled by execute_new's budget but not injected",
+        "R9 (known finding): c11_storage_recovery_first assumes the search index lists every durably Running plan; the torn first UpdatePlan of cosmosdb breaks that (entry NotStarted, item Running) and Vault.Recovery does not repair it. The torn state is reproduced on every run on the real updater over the fake; that the plan is then not resumed cannot be observed through the fake (it answers a status-only Search with an empty result) and is shown in the model (c11_ex_torn_first_write_refuted). sqlite stores, which every other family uses, have no separate index",
         "lastUpdate counts the start/end of every object and of every attempt of every action (since fix d8f84b2, R4); the 'attempt-recent' cases (all states far older than maxAge, one attempt 1 ms old) must be resumed",
     ])
